@@ -28,6 +28,7 @@ type Ctx struct {
 	hold           *holderTypes
 	wparams        map[*ssa.Function]map[int]bool
 	transient      map[*types.Named]bool
+	memo           map[*types.Named]memoVerdict
 	done           map[string]bool
 	addrUse        map[string][2]string
 	denomOrd       map[string]int
@@ -697,6 +698,7 @@ func lostUpdates(c *Ctx, m string) int {
 	}
 	staleElementPointers(c, fs)
 	stalePointerControl(c)
+	elementCarryIn(c, m, fs)
 	if bad == 0 {
 		r.OK("A3.lost-update", m+"|none", "", fmt.Sprintf("no dropped update to a local record copy in the %d functions of %s on transaction, block and genesis paths", len(fs), m))
 	}
